@@ -576,7 +576,9 @@ func (m *Mint) RequestMeltQuote(meltQuoteRequest nut05.PostMeltQuoteBolt11Reques
 		errmsg := fmt.Sprintf("invalid invoice: %v", err)
 		return storage.MeltQuote{}, cashu.BuildCashuError(errmsg, cashu.MeltQuoteErrCode)
 	}
-	if bolt11.MSatoshi == 0 {
+	// the amount is reported as an int64: 0 means the invoice has no amount,
+	// a negative number that its amount does not fit
+	if bolt11.MSatoshi <= 0 {
 		return storage.MeltQuote{}, cashu.BuildCashuError("invoice has no amount", cashu.MeltQuoteErrCode)
 	}
 	// round up: the backend pays the invoice's millisatoshi amount
